@@ -24,6 +24,9 @@ var vC15Rules = []vC15Rule{
 	{"\\.js$", true, "", false, "\\.js$"},
 	{"/health", true, "", false, "/health"},
 	{"^/$", true, "", false, "^/$"},
+	{"^/a=b$", true, "", false, "^/a=b$"}, // a legacy regex is a path regex verbatim, '=' and '!=' included
+	{"=/x", true, "", false, "=/x"},
+	{"^/c!=d", true, "", false, "^/c!=d"},
 	{"GET=^/api/v1/status$", false, "GET", false, "^/api/v1/status$"},
 	{"GET=\\.js$", false, "GET", false, "\\.js$"},
 	{"POST=^/hooks/", false, "POST", false, "^/hooks/"},
